@@ -115,4 +115,9 @@ theorem runOps_new_call (h : Store) (o : Obj) (f : Fn) :
   · rw [c3 h.size (by omega)]; exact h0
   · rw [← hs]; exact c2
 
+/-- the first two steps of a process: build an object, call `f` on it — two objects, whatever `f` answered -/
+theorem size_first_call (o : Obj) (f : Fn) : (runOps Store.empty [.new o, .call f 0]).size = 2 := by
+  have := (runOps_new_call Store.empty o f).1
+  simpa [Store.empty, Store.size] using this
+
 end Dmr.Trellis
